@@ -20,12 +20,13 @@ From Dials Require Export Sources.FileWatch.
 Import ListNotations.
 Open Scope N_scope.
 
-Inductive opkind := OStart | ORewrite | OTrunc | ORename | OK8s | OLink | ODelete | OReload.
+Inductive opkind := OStart | ORewrite | OTrunc | ORename | OK8s | OLink | ODelete | OReload | ODir | ORmParent.
 
 Record qstep := mkStep {
   q_op : opkind;
   q_read : read_result;        (* ground truth after the operation *)
   q_resolved : option path;
+  q_linkres : option path;     (* what Readlink + EvalSymlinks(dir) tell about a (dangling) symlink *)
   q_ino : N;                   (* logical inode of the target, 0 = none *)
   q_dead : list N;             (* config inodes destroyed by the operation *)
   q_gone : list path;          (* directories removed by the operation *)
@@ -42,7 +43,7 @@ Record qstep := mkStep {
 
 Inductive c17case :=
 | Quiescent (cfg r0 : path) (ino0 : N) (steps : list qstep)
-| Racing (hist : list (opkind * bool * bool)) (final : read_result) (view : option N) (lasterr dup ok : bool).
+| Racing (hist : list opkind) (final : read_result) (view : option N) (lasterr dup ok : bool).
 
 (* the harness's content table: ids below 100 decode to themselves *)
 Definition decode (c : content) : option value := if c <? 100 then Some c else None.
@@ -66,7 +67,7 @@ Definition view_val (st : lstate) : option N := option_map snd (view st).
 
 (* replay of one step in the model; returns the new state and watched inode *)
 Definition model_step (cfg : path) (st : lstate) (wino : N) (s : qstep) : lstate * N :=
-  let f := mkFs (q_read s) (q_resolved s) true true in
+  let f := mkFs (q_read s) (q_resolved s) (q_linkres s) true true [] in
   let inputs := match q_op s with
                 | OReload => [IReload]
                 | OStart => [IRecheck]          (* the token watchLoop starts with *)
@@ -84,7 +85,7 @@ Definition model_step (cfg : path) (st : lstate) (wino : N) (s : qstep) : lstate
 Definition step_agrees (st0 st : lstate) (prev s : qstep) : bool :=
   let dm := n_errors (st_reports st) - n_errors (st_reports st0) in
   let dio := q_nio s - q_nio prev in
-  let di := (q_nerrs s - q_nerrs prev) - dio in
+  let di := q_nerrs s - q_nerrs prev in
   let newval := negb (n_values (st_reports st) =? n_values (st_reports st0)) in
   (* a multi-event operation lets the loop re-read the previous content *)
   let prev_bad := match q_read prev with
@@ -114,7 +115,8 @@ Definition step_property (good : option N) (prev s : qstep) : bool :=
                   && implb (optN_eqb good (Some c)) (q_nvals s =? q_nvals prev)
       | None => q_lasterr s && optN_eqb (q_last s) (q_last prev) && (q_nvals s =? q_nvals prev)
       end
-  | _ => optN_eqb (q_last s) (q_last prev) && (q_nvals s =? q_nvals prev)
+  | IOErr => q_lasterr s && optN_eqb (q_last s) (q_last prev) && (q_nvals s =? q_nvals prev)
+  | NotExist => optN_eqb (q_last s) (q_last prev) && (q_nvals s =? q_nvals prev)
   end.
 
 (* A reader that resolves the config path while the operation replaces the
@@ -124,7 +126,7 @@ Definition step_property (good : option N) (prev s : qstep) : bool :=
    transient not-exist read first; the walk keeps every candidate model state
    that agrees with what the implementation showed. *)
 Definition transient_notexist (cfg : path) (st : lstate) : lstate :=
-  m_step cfg (mkFs NotExist None false false) st (IEvent cfg).
+  m_step cfg (mkFs NotExist None None false false []) st (IEvent cfg).
 
 (* Second environment race: vfs_rename notifies the parent directory
    (IN_MOVED_TO) before the moved inode itself (IN_MOVE_SELF).  A loop that
@@ -141,15 +143,29 @@ Definition with_move_self (cfg : path) (o : opkind) (before : lstate) (r : lstat
   if by_rename o && negb (st_watching before) && st_watching n
   then [(n, w); (drop cfg cfg n, w)] else [(n, w)].
 
-Definition successors (cfg : path) (c : lstate * N) (s : qstep) : list (lstate * lstate * N) :=
-  let '(st, wino) := c in
-  let tag := map (fun r : lstate * N => (st, fst r, snd r)) in
-  let normal := tag (with_move_self cfg (q_op s) st (model_step cfg st wino s)) in
-  match q_dead s with
-  | [] => normal
-  | _ => let st' := transient_notexist cfg st in
-         normal ++ tag (with_move_self cfg (q_op s) st' (model_step cfg st' wino s))
+(* Third: open/read failures other than not-exist that the source reported
+   without a decoder being involved are transient IOErr reads of the
+   environment; the model is fed as many of them as the harness counted. *)
+Fixpoint io_transients (cfg : path) (k : nat) (st : lstate) : lstate :=
+  match k with
+  | O => st
+  | S k' => io_transients cfg k' (m_step cfg (mkFs IOErr None None false false []) st (IEvent cfg))
   end.
+
+Definition successors (cfg : path) (prev : qstep) (c : lstate * N) (s : qstep) : list (lstate * lstate * N) :=
+  let '(st00, wino) := c in
+  let st := io_transients cfg (N.to_nat (q_nio s - q_nio prev)) st00 in
+  let tag := map (fun r : lstate * N => (st00, fst r, snd r)) in
+  let normal := tag (with_move_self cfg (q_op s) st (model_step cfg st wino s)) in
+  let through_notexist := match q_dead s, q_op s with
+                          | _ :: _, _ => true
+                          | [], ODir => true       (* the entry is removed, then the directory made *)
+                          | [], _ => false
+                          end in
+  if through_notexist
+  then let st' := transient_notexist cfg st in
+       normal ++ tag (with_move_self cfg (q_op s) st' (model_step cfg st' wino s))
+  else normal.
 
 (* bits: 1 = some step differs from the model, 2 = the property fails on some
    step, 4 = at the first property failure the model's watch-set invariant
@@ -159,7 +175,7 @@ Fixpoint walk (cfg : path) (cands : list (lstate * N)) (good : option N) (prev :
   match steps with
   | [] => (false, false, false)
   | s :: r =>
-      let succ := flat_map (fun c => successors cfg c s) cands in
+      let succ := flat_map (fun c => successors cfg prev c s) cands in
       let ok := filter (fun x => let '(st0, st', _) := x in step_agrees st0 st' prev s) succ in
       let agree := match ok with [] => false | _ => true end in
       let next := map (fun x => let '(_, st', w) := x in (st', w))
@@ -175,28 +191,11 @@ Fixpoint walk (cfg : path) (cands : list (lstate * N)) (good : option N) (prev :
 
 (* what dials.Config's initial Source.Value() saw *)
 Definition first_step (r0 : path) : qstep :=
-  mkStep OStart (Content 0) (Some r0) 1 [] [] false [] [] 1 0 0 (Some 0) false.
-
-(* Known-finding class 2 (racing histories): the target of the symlinked config
-   path is deleted alone (dangling symlink) before the loop has started to
-   watch the target's directory.  The loop's not-exist branch does not follow
-   the dangling link, so the directory in which the file is later re-created is
-   never watched and the re-creation (and every later in-place write) is lost,
-   until something touches the config path's own directory entry.  The class is
-   a predicate on the history: a target-only deletion after which no operation
-   created, replaced or removed the config path's own directory entry.
-   hist entries: (operation, it left a dangling link, it touched the entry). *)
-Fixpoint class2_from (lost : bool) (h : list (opkind * bool * bool)) : bool :=
-  match h with
-  | [] => lost
-  | (_, dangling, entry) :: r => class2_from ((lost || dangling) && negb entry) r
-  end.
-Definition class2 (h : list (opkind * bool * bool)) : bool := class2_from false h.
+  mkStep OStart (Content 0) (Some r0) None 1 [] [] false [] [] 1 0 0 (Some 0) false.
 
 (* verdict codes: 0 pass; 1 implementation <> model though the property holds;
    3 the property fails; 11 the property fails, implementation = model, and the
-   model has lost a directory watch (class 1: DESIGN finding 12, repaired);
-   12 a racing history of class 2 did not converge *)
+   model has lost a directory watch (class 1: DESIGN finding 12, repaired) *)
 Definition check (c : c17case) : N :=
   match c with
   | Quiescent cfg r0 ino0 steps =>
@@ -214,9 +213,7 @@ Definition check (c : c17case) : N :=
             end
         | _ => match v with Some x => x <? 100 | None => false end
         end in
-      if negb (negb dup && ok) then 3
-      else if conv then 0
-      else if class2 hist then 12 else 3
+      if negb dup && ok && conv then 0 else 3
   end.
 
 Fixpoint run_from (i : N) (cs : list c17case) : list (N * N) :=
